@@ -6,12 +6,14 @@ package main
 import (
 	"fmt"
 	"go/ast"
+	"go/constant"
 	"go/token"
 	"go/types"
 	"math/big"
 	"os"
 	"path/filepath"
 	"sort"
+	"strconv"
 	"strings"
 	"sync"
 
@@ -145,7 +147,60 @@ func (g *Gen) calleeSpec(v *FnVC, c ssa.CallCommon) (*ssa.Function, *FuncSpec) {
 	if callee == nil {
 		return nil, nil
 	}
+	// library calls may have contracts keyed by a constant string operand,
+	// e.g. fmt.Fprintf["%d\t"]
+	if g.extern != nil && callee.Pkg != nil {
+		if strs, _ := callConstOperands(c); len(strs) > 0 {
+			key := callee.Pkg.Pkg.Name() + "." + funcKey(callee) + "[" + strconv.Quote(strs[0]) + "]"
+			if s, ok := g.extern.Funcs[key]; ok {
+				return callee, s
+			}
+		}
+	}
 	return callee, g.specFor(callee)
+}
+
+// callConstOperands returns the constant string operands of a call (direct or
+// boxed in the variadic ...interface{} array) and the integer-valued variadic
+// operands by position.
+func callConstOperands(c ssa.CallCommon) ([]string, map[int]ssa.Value) {
+	var strs []string
+	vals := map[int]ssa.Value{}
+	for _, a := range c.Args {
+		if k, ok := a.(*ssa.Const); ok && k.Value != nil && k.Value.Kind() == constant.String {
+			strs = append(strs, constant.StringVal(k.Value))
+		}
+	}
+	if len(c.Args) > 0 {
+		if al, _, ok := varargsArray(c.Args[len(c.Args)-1]); ok {
+			for _, r := range *al.Referrers() {
+				ia, ok := r.(*ssa.IndexAddr)
+				if !ok {
+					continue
+				}
+				idx, ok := ia.Index.(*ssa.Const)
+				if !ok {
+					continue
+				}
+				for _, r2 := range *ia.Referrers() {
+					st, ok := r2.(*ssa.Store)
+					if !ok {
+						continue
+					}
+					mi, ok := st.Val.(*ssa.MakeInterface)
+					if !ok {
+						continue
+					}
+					if k, ok := mi.X.(*ssa.Const); ok && k.Value != nil && k.Value.Kind() == constant.String {
+						strs = append(strs, constant.StringVal(k.Value))
+					} else {
+						vals[int(idx.Int64())] = mi.X
+					}
+				}
+			}
+		}
+	}
+	return strs, vals
 }
 
 func (g *Gen) lookupSpecByKey(v *FnVC, key string) *FuncSpec {
@@ -346,7 +401,7 @@ func (g *Gen) GenFunc(fn *ssa.Function, spec *FuncSpec) (vc *FnVC, err error) {
 	v := &FnVC{g: g, fn: fn, spec: spec, sf: g.specFileOf(spec), declared: map[string]string{}, regs: map[ssa.Value]Val{},
 		edges: map[[2]int]*edgeInfo{}, reach: map[*ssa.BasicBlock]*Term{}, counters: map[string]int{},
 		locals: map[*ssa.Alloc]string{}, lstruct: map[*ssa.Alloc]bool{}, heapSorts: map[string]string{},
-		loopInfo: map[*Loop]*loopState{}, blockCases: map[*ssa.BasicBlock][]*Term{}, paramConsts: map[string]bool{}, refHeaps: map[string]bool{}, usedSpecs: map[string]bool{}, ghostVars: map[string]types.Type{}, callOrd: map[string]int{}}
+		loopInfo: map[*Loop]*loopState{}, blockCases: map[*ssa.BasicBlock][]*Term{}, paramConsts: map[string]bool{}, refHeaps: map[string]bool{}, ghostSeq: map[string]bool{}, usedSpecs: map[string]bool{}, ghostVars: map[string]types.Type{}, callOrd: map[string]int{}}
 	v.name = fn.Pkg.Pkg.Name() + "." + funcKey(fn)
 	v.pkg = fn.Pkg.Pkg
 	resetTermTables()
@@ -483,6 +538,13 @@ func (v *FnVC) declGhost(gc *Clause) {
 	decl := strings.Fields(strings.TrimSpace(t[:eq]))
 	if len(decl) != 2 {
 		specErr("%s: ghost var needs 'name type'", gc.Line)
+	}
+	if decl[1] == "seq" {
+		// an unbounded integer sequence: a plain SMT array; initial contents arbitrary
+		v.ghostVars[decl[0]] = types.NewSlice(tInt)
+		v.ghostSeq[decl[0]] = true
+		v.entry.vars["ghost."+decl[0]] = v.fresh("ghost_"+decl[0], ArrSort(SInt))
+		return
 	}
 	typ := v.g.parseType(decl[1], v.fn.Pkg.Pkg)
 	e, err := ParseExpr(strings.TrimSpace(t[eq+1:]))
